@@ -10,6 +10,8 @@ mod runtime;
 mod stack;
 mod template;
 mod variable;
+#[cfg(liquid_verif)]
+pub mod verif_trace;
 
 pub use self::expression::*;
 pub use self::partials::*;
